@@ -2,7 +2,7 @@
    Only statements, each closed by [exact <lemma>], followed by Print Assumptions. *)
 From Coq Require Import List NArith Bool Arith Lia.
 Import ListNotations.
-From JV Require Import Model.Stream Proofs.StreamProofs.
+From JV Require Import Model.Stream Proofs.StreamProofs Lib.PyGen Proofs.StreamTrans.
 
 (* the concatenation of a buffered stream equals render, for every piece list and size *)
 Theorem C10_buffered_concat : forall (size : nat) (pieces : list str) (chunks : list str),
@@ -71,8 +71,28 @@ Theorem C10_per_piece_encoding_refuted :
   snd (bom_feed false [97%N]) ++ snd (bom_feed false [98%N]) <> snd (bom_feed false [97%N; 98%N]).
 Proof. vm_compute. discriminate. Qed.
 
+(* the Python text of TemplateStream._buffered_generator, as a term of the deep embedding Lib/PyGen
+   (the harness regenerates the term from the current source on every run and proves it equal to
+   buffered_term): executed by the embedding's interpreter with a loop budget of len(pieces) + 2 it
+   returns after yielding exactly the model's chunks — for every buffer size the stream accepts and
+   every piece list *)
+Theorem C10_source_term_semantics : forall size pieces chunks, stream_buffered size pieces = Ok chunks ->
+  exists s', run_gen buffered_term 5 size pieces (length pieces + 2) = OReturn s' chunks.
+Proof. exact buffered_term_stream. Qed.
+Print Assumptions C10_source_term_semantics.
+
+(* and why enable_buffering must refuse size 0 (it refuses everything <= 1): the generator would
+   yield empty chunks forever — no budget suffices *)
+Theorem C10_size_zero_spins : forall n, run_gen buffered_term 5 0 [] n = OFuel.
+Proof. exact size_zero_spins. Qed.
+Print Assumptions C10_size_zero_spins.
+
 (* non-vacuity: a concrete stream with empty pieces, two full chunks and a short last one *)
 Example C10_example :
   stream_buffered 2 [[97%N]; []; [98%N]; [99%N]; []; []; [100%N]; [101%N]; []]
   = Ok [[97%N; 98%N]; [99%N; 100%N]; [101%N]].
+Proof. vm_compute. reflexivity. Qed.
+Example C10_example_term :
+  run_gen buffered_term 5 2 [[97%N]; []; [98%N]; [99%N]; []; []; [100%N]; [101%N]; []] 11
+  = OReturn {| vars := [VNat 2; VList []; VNat 0; VAppend 1; VStr []]; input := [] |} [[97%N; 98%N]; [99%N; 100%N]; [101%N]].
 Proof. vm_compute. reflexivity. Qed.
